@@ -35,7 +35,7 @@ class HistSim(Sim):
               "reuse_of_differentiated_node", "no_reset_between_calls", "reset_between_calls", "sweep_under_retain_ctx",
               "unreachable_tensor_with_grad", "fault_mid_sweep", "retry_after_fault", "rejected_backward", "repeat_same_root",
               "zero_via_tensor", "zero_via_module", "zero_via_optimizer", "forward_fault", "no_grad_span", "nonfinite_upstream_gradient", "same_op_same_geometry_by_second_user",
-              "batch_norm_with_running_statistics", "same_batch_norm_layer_used_by_two_graphs", "optimizer_step_between_backward_calls", "step_without_reset_then_more_backward", "module_parameter_added_after_use", "module_parameter_replaced_after_use"]
+              "batch_norm_with_running_statistics", "same_batch_norm_layer_used_by_two_graphs", "soak_prune", "optimizer_step_between_backward_calls", "step_without_reset_then_more_backward", "module_parameter_added_after_use", "module_parameter_replaced_after_use"]
     RULE = ("one run = a seeded history of build/backward/retain/reset/fault events over shared leaves; distinct = hash of the event-kind "
             "sequence with, per backward, the root's role (fresh/former root/former interior/leaf) and whether retained nodes were crossed; "
             "non-trivial = at least two accepted backward calls")
@@ -43,8 +43,12 @@ class HistSim(Sim):
                    "leaf data is never mutated in these histories (that is C08's world)"]
 
     def knobs(self, rng, tier):
+        soak = rng.random() < 0.004
         return {
-            "max_events": rng.randint(8, 40),
+            # a SOAK run is one long-running program: thousands of events in one world, graphs built and dropped, hundreds of sweeps between
+            # two uses of an old node - what a pool, ring buffer, cache or counter inside the library would need to wrap around
+            "soak": soak,
+            "max_events": rng.randint(1200, 2600) if soak else rng.randint(8, 40),
             "faulty": rng.random() < 0.35,          # fault-injecting run class
             "n_leaves": rng.randint(2, 5),
             "f32": rng.random() < 0.25,
@@ -108,6 +112,8 @@ class HistSim(Sim):
                 return evs[0]
         r = rng.random()
         nodes = [i for i, m in st.meta.items() if m["kind"] == "node"]
+        if kn.get("soak") and (len(nodes) >= 12 or len(st.T) > 40):
+            return {"k": "prune"}
         rg_all = [i for i in st.T if st.T[i].requires_grad]
         if (r < kn["p_backward"] and rg_all and nodes) or (len(nodes) >= 14 and rg_all):
             return self._gen_backward(rng, st, rg_all)
@@ -492,8 +498,48 @@ class HistSim(Sim):
         O = st.SG.optim
         ps = [st.T[i] for i in ids]
         kind = ev.get("kind", "SGD")
-        st.opt = O.SGD(ps, lr=0.1) if kind == "SGD" else O.SGD(ps, lr=0.1, momentum=0.9) if kind == "SGDm" else O.Adam(ps, lr=0.01)
+        st.opt = st.must("C04.reset_raises", "constructing an optimizer over the leaves (some of them frozen)",
+                         lambda: O.SGD(ps, lr=0.1) if kind == "SGD" else O.SGD(ps, lr=0.1, momentum=0.9) if kind == "SGDm" else O.Adam(ps, lr=0.01))
         st.opt_ids = ids
+
+    def _ev_prune(self, st, ev):
+        """the program drops results it no longer needs (newest first, so some OLD nodes survive and are re-used much later) and leaves
+        nobody refers to"""
+        def consumers():
+            used = set()
+            for i, m in st.meta.items():
+                if m["kind"] == "node" and i in st.T:
+                    used.update(m["inputs"])
+            return used
+        for _ in range(64):
+            nodes = sorted(i for i, m in st.meta.items() if m["kind"] == "node")
+            if len(nodes) <= 5:
+                break
+            used = consumers()
+            tops = [i for i in nodes if i not in used]
+            if not tops:
+                break
+            j = tops[-1]
+            del st.T[j]
+            del st.meta[j]
+            st.retained.discard(j)
+        used = consumers()
+        keep = set(st.module_ids) | set(getattr(st, "opt_ids", []) or [])
+        leaves = sorted(i for i, m in st.meta.items() if m["kind"] == "leaf")
+        for j in leaves:
+            if len([i for i, m in st.meta.items() if m["kind"] == "leaf"]) <= 10:
+                break
+            if j not in used and j not in keep:
+                del st.T[j]
+                del st.meta[j]
+                st.ledger.pop(j, None)
+                st.abs.pop(j, None)
+                st.unknown.discard(j)
+                st.lowprec.discard(j)
+        st.last_fault_root = None
+        st.pending = [e for e in st.pending if e.get("k") not in ("backward", "zero")]
+        gc.collect()
+        st.probes["soak_prune"] += 1
 
     def _ev_opt_step(self, st, ev):
         if st.opt is None:
